@@ -318,9 +318,128 @@ impl Harness for C10 {
   }
 }
 
+/// a subscriber that arrives from inside another observer's callback, i.e. *during* the delivery of
+/// an item or of the terminal (retry / on_error_resume_next resubscribe exactly like this)
+pub struct ReentrantJoin {
+  pub kind: Sk,
+}
+
+impl Harness for ReentrantJoin {
+  fn name(&self) -> String {
+    format!("C10/reentrant-join/{:?}", self.kind)
+  }
+  fn run(&self) -> Verdict {
+    use std::sync::Mutex;
+    let initial = Sym::var("init", -5);
+    let sbj = Arc::new(match self.kind {
+      Sk::Behavior => AnySubject::B(subjects::BehaviorSubject::new(initial.clone())),
+      _ => AnySubject::R(subjects::ReplaySubject::new()),
+    });
+    let pre = sym::choose("pre", 3);
+    let history: Vec<Sym> = (0..pre).map(|i| Sym::var(&format!("p{}", i), i as i64 + 1)).collect();
+    for x in history.iter() {
+      sbj.next(x.clone());
+    }
+    // when the newcomer arrives: 0 = during the delivery of an item, 1 = during the terminal
+    let when = sym::choose("when", 2);
+    let end_is_error = sym::choose("end", 2) == 1;
+    let live_item = Sym::var("x", 40);
+    let perr = Sym::var("err", 70);
+    let rec_a = Recorder::labelled("A");
+    let rec_b = Recorder::labelled("B");
+    let joined: Arc<Mutex<Option<Subscription<'static>>>> = Arc::new(Mutex::new(None));
+    let join = {
+      let (sbj, rec_b, joined) = (sbj.clone(), rec_b.clone(), joined.clone());
+      move || {
+        let mut j = joined.lock().unwrap();
+        if j.is_none() {
+          *j = Some(rec_b.subscribe(&sbj.observable()));
+        }
+      }
+    };
+    let (j1, j2, j3) = (join.clone(), join.clone(), join.clone());
+    let (an, ae, ac) = (rec_a.on_next(), rec_a.on_error(), rec_a.on_complete());
+    let x_t = live_item.clone();
+    let _sub_a = sbj.observable().subscribe(
+      move |v: Sym| {
+        let is_live = v.t == x_t.t;
+        an(v);
+        if when == 0 && is_live {
+          j1();
+        }
+      },
+      move |e| {
+        ae(e);
+        if when == 1 {
+          j2();
+        }
+      },
+      move || {
+        ac();
+        if when == 1 {
+          j3();
+        }
+      },
+    );
+    sbj.next(live_item.clone());
+    let after = Sym::var("y", 41);
+    sbj.next(after.clone());
+    if end_is_error {
+      sbj.error(rx_err(&perr));
+    } else {
+      sbj.complete();
+    }
+    let end = if end_is_error { REnd::Error(perr.clone()) } else { REnd::Complete };
+    // A: what a subscriber arriving after `history` gets
+    let mut a_items: Vec<Sym> = match self.kind {
+      Sk::Behavior => vec![history.last().cloned().unwrap_or(initial.clone())],
+      _ => history.clone(),
+    };
+    a_items.push(live_item.clone());
+    a_items.push(after.clone());
+    let exp_a = RStream { items: a_items, end: end.clone() };
+    // B: arrives while x (when = 0) or the terminal (when = 1) is being delivered
+    let exp_b = match (self.kind, when) {
+      (Sk::Behavior, 0) => RStream { items: vec![live_item.clone(), after.clone()], end: end.clone() },
+      (Sk::Behavior, _) => RStream { items: vec![], end: end.clone() },
+      (_, 0) => {
+        let mut v = history.clone();
+        v.push(live_item.clone());
+        v.push(after.clone());
+        RStream { items: v, end: end.clone() }
+      }
+      (_, _) => {
+        let mut v = history.clone();
+        v.push(live_item.clone());
+        v.push(after.clone());
+        RStream { items: v, end: end.clone() }
+      }
+    };
+    let sig = format!("subject={:?};reentrant-join={}", self.kind, ["during-next", "during-terminal"][when]);
+    let (pa, sa) = compare(&rec_a.take(), &exp_a, &format!("{};observer=A", sig));
+    if let Some(m) = sa {
+      return Verdict { prop: None, structural: Some(m), sample: String::new(), signature: format!("{};role=first-observer", sig), nontrivial: true, detail: vec![] };
+    }
+    let (pb, sb) = compare(&rec_b.take(), &exp_b, &format!("{};observer=B", sig));
+    if let Some(m) = sb {
+      return Verdict { prop: None, structural: Some(m), sample: String::new(), signature: format!("{};role=joiner", sig), nontrivial: true, detail: vec![] };
+    }
+    Verdict {
+      prop: Some(sym::t_and(vec![pa.unwrap(), pb.unwrap()])),
+      structural: None,
+      sample: format!("{} A=[{}] B=[{}]", sig, short_log(&rec_a.take()), short_log(&rec_b.take())),
+      signature: format!("{};role=values", sig),
+      nontrivial: true,
+      detail: vec![],
+    }
+  }
+}
+
 pub fn plan(tier: Tier, _seed: u64) -> Plan {
   let mut h: Vec<Arc<dyn Harness>> = vec![];
   let steps = if tier == Tier::Quick { 5 } else { 7 };
+  h.push(Arc::new(ReentrantJoin { kind: Sk::Behavior }));
+  h.push(Arc::new(ReentrantJoin { kind: Sk::Replay }));
   for kind in [Sk::Subject, Sk::Behavior, Sk::Replay, Sk::Async] {
     for via in [Via::Direct, Via::Map, Via::Take] {
       h.push(Arc::new(C10 { kind, via, max_steps: steps, observers: if tier == Tier::Quick { 2 } else { 3 }, membership_only: false }));
@@ -350,6 +469,9 @@ pub fn plan(tier: Tier, _seed: u64) -> Plan {
 
 pub fn by_name(name: &str) -> Option<Arc<dyn Harness>> {
   let p: Vec<&str> = name.split('/').collect();
+  if p.len() == 3 && p[1] == "reentrant-join" {
+    return Some(Arc::new(ReentrantJoin { kind: if p[2] == "Behavior" { Sk::Behavior } else { Sk::Replay } }));
+  }
   if p.len() != 5 {
     return None;
   }
